@@ -731,7 +731,7 @@ package uhppote
 //@   params u, addr, request, callback
 //@   returns (res, err)
 //@   requires driver: u != nil && addr != nil && len(addr.IP) == 4 && len(request) >= 2
-//@   modifies sock.opened, sock.closed, sock.kind, sock.lip, sock.lport, sock.rip, sock.rport, sock.dialdl, sock.deadline, sock.writes, sock.wip, sock.wport, sock.wbytes, sock.wlen, sock.reads, sock.unguarded, lock.held, lock.ops
+//@   modifies sock.opened, sock.closed, sock.kind, sock.lip, sock.lport, sock.rip, sock.rport, sock.dialdl, sock.deadline, sock.writes, sock.wip, sock.wport, sock.wbytes, sock.wlen, sock.reads, sock.unguarded, sock.rset, sock.wset, sock.pending, lock.held, lock.ops
 //@   define OPENED = sock.opened == old(sock.opened) + 1
 //@   ensures one:      sock.opened <= old(sock.opened) + 1 && (err == nil ==> OPENED)
 //@   ensures closed:   sock.closed - old(sock.closed) == sock.opened - old(sock.opened)
@@ -750,6 +750,7 @@ package uhppote
 //@                      (forall k int :: 0 <= k && k < len(request) ==> sock.wbytes[k] == old(request[k]))
 //@     invariant kind:  sock.kind == 1 && sock.lport == bindPort(u) && (u.bindAddr.ip.kind != 2 ==> sock.lip == bindIP(u))
 //@     invariant lock:  lock.held == old(lock.held) + (bindPort(u) != 0 ? 1 : 0) && lock.ops == old(lock.ops) + (bindPort(u) != 0 ? 1 : 0)
+//@     decreases sock.pending
 
 //@ macro sockMods() = true
 // SendUDP / SendTCP: one connected socket (udp4 / tcp4) from the configured bind address to addr, dialled and used
@@ -758,7 +759,7 @@ package uhppote
 //@   params u, addr, request
 //@   returns (res, err)
 //@   requires driver: u != nil && addr != nil && len(request) >= 2
-//@   modifies sock.opened, sock.closed, sock.kind, sock.lip, sock.lport, sock.rip, sock.rport, sock.dialdl, sock.deadline, sock.writes, sock.wip, sock.wport, sock.wbytes, sock.wlen, sock.reads, sock.unguarded, lock.held, lock.ops
+//@   modifies sock.opened, sock.closed, sock.kind, sock.lip, sock.lport, sock.rip, sock.rport, sock.dialdl, sock.deadline, sock.writes, sock.wip, sock.wport, sock.wbytes, sock.wlen, sock.reads, sock.unguarded, sock.rset, sock.wset, sock.pending, lock.held, lock.ops
 //@   define OPENED = sock.opened == old(sock.opened) + 1
 //@   ensures one:      sock.opened <= old(sock.opened) + 1 && (err == nil ==> OPENED)
 //@   ensures closed:   sock.closed - old(sock.closed) == sock.opened - old(sock.opened)
@@ -776,7 +777,7 @@ package uhppote
 //@   params u, addr, request
 //@   returns (res, err)
 //@   requires driver: u != nil && addr != nil && len(request) >= 2
-//@   modifies sock.opened, sock.closed, sock.kind, sock.lip, sock.lport, sock.rip, sock.rport, sock.dialdl, sock.deadline, sock.writes, sock.wip, sock.wport, sock.wbytes, sock.wlen, sock.reads, sock.unguarded, lock.held, lock.ops
+//@   modifies sock.opened, sock.closed, sock.kind, sock.lip, sock.lport, sock.rip, sock.rport, sock.dialdl, sock.deadline, sock.writes, sock.wip, sock.wport, sock.wbytes, sock.wlen, sock.reads, sock.unguarded, sock.rset, sock.wset, sock.pending, lock.held, lock.ops
 //@   define OPENED = sock.opened == old(sock.opened) + 1
 //@   ensures one:      sock.opened <= old(sock.opened) + 1 && (err == nil ==> OPENED)
 //@   ensures closed:   sock.closed - old(sock.closed) == sock.opened - old(sock.opened)
@@ -937,20 +938,45 @@ package uhppote
 // one callback per datagram read without error
 //@ func (*ut0311).Listen$2
 //@   requires env: u != nil && c != nil
-//@   modifies sock.reads, sock.unguarded
+//@   modifies sock.reads, sock.unguarded, sock.pending
 //@   loop 1
 //@     invariant buf: len(m) > 64 && fresh(m)
 
 
+// Broadcast (discovery): one UDP socket bound to the configured bind address, the request written once under a
+// write deadline, one reply collector started (none for set-address, function 0x96), the caller held for exactly
+// the configured timeout, the socket closed and the send lock released on every path. The collector reads without
+// a deadline of its own: it is the Close on return that ends it.
+//@ func (*ut0311).Broadcast
+//@   params u, addr, request
+//@   returns (res, err)
+//@   requires driver: u != nil && addr != nil && len(addr.IP) == 4 && len(request) >= 2
+//@   modifies sock.opened, sock.closed, sock.kind, sock.lip, sock.lport, sock.rip, sock.rport, sock.dialdl, sock.deadline, sock.writes, sock.wip, sock.wport, sock.wbytes, sock.wlen, sock.unguarded, sock.rset, sock.rdl, sock.wset, sock.wdl, lock.held, lock.ops, clock.slept, go.started
+//@   define OPENED = sock.opened == old(sock.opened) + 1
+//@   ensures one:      sock.opened <= old(sock.opened) + 1 && (err == nil ==> OPENED)
+//@   ensures closed:   sock.closed - old(sock.closed) == sock.opened - old(sock.opened)
+//@   ensures lock:     lock.held == old(lock.held) && lock.ops - old(lock.ops) == (bindPort(u) != 0 ? 2 : 0)
+//@   ensures bind:     OPENED ==> sock.kind == 1 && sock.lport == bindPort(u) && (u.bindAddr.ip.kind != 2 ==> sock.lip == bindIP(u))
+//@   ensures guarded:  sock.unguarded == old(sock.unguarded)
+//@   ensures sent:     err == nil ==> sock.writes == old(sock.writes) + 1 && sock.wip == destIP(addr) && sock.wport == addr.Port && sock.wlen == len(request) &&
+//@                       (forall k int :: 0 <= k && k < len(request) ==> sock.wbytes[k] == old(request[k]))
+//@   ensures once:     sock.writes <= old(sock.writes) + 1
+//@   ensures waits:    (err == nil ==> clock.slept == old(clock.slept) + u.timeout) && clock.slept <= old(clock.slept) + (u.timeout >= 0 ? u.timeout : 0) && clock.slept >= old(clock.slept) + (u.timeout >= 0 ? 0 : u.timeout)
+//@   ensures reader:   go.started <= old(go.started) + 1 && (request[1] == 150 ==> go.started == old(go.started)) && (err == nil && request[1] != 150 ==> go.started == old(go.started) + 1)
+
 // the reply collector of discovery (goroutine body of ut0311.Broadcast): every collected reply is held in a buffer
-// of its own, so a later datagram cannot change an earlier reply
+// of its own, so a later datagram cannot change an earlier reply. It has to end with its call (attr goroutine):
+// nothing in it may block for ever, and its loop ends - every round consumes one of the finitely many datagrams
+// that reach the socket before it is closed, and a failed read (the Close) leaves the loop.
 //@ func (*ut0311).Broadcast$1
+//@   attr goroutine = ends with the call
 //@   requires env: u != nil && connection != nil
 //@   modifies replies
 //@   requires start: (forall k int :: 0 <= k && k < len(replies) ==> allocated(replies[k])) &&
 //@                   (forall j int, k int :: 0 <= j && j < k && k < len(replies) ==> !sameblock(replies[j], replies[k]))
-//@   modifies sock.reads, sock.unguarded
+//@   modifies sock.reads, sock.unguarded, sock.pending
 //@   loop 1
 //@     invariant own:      fresh(replies) || sameblock(replies, old(replies)) || cap(replies) == 0
 //@     invariant known:    forall k int :: 0 <= k && k < len(replies) ==> allocated(replies[k])
 //@     invariant distinct: forall j int, k int :: 0 <= j && j < k && k < len(replies) ==> !sameblock(replies[j], replies[k])
+//@     decreases sock.pending
